@@ -267,12 +267,13 @@ structure App where
   run : Bool
   inflight : Nat         -- `sched` calls between their two critical sections
   next : Nat
+  tickAt : Rat           -- ghost: `_scheduler.seconds` of the last completed tick
   hist : List Ev
 deriving Repr
 
 def App.init : App :=
   { q := [], pc := .top, notified := false, pending := false, run := true, inflight := 0,
-    next := 0, hist := [] }
+    next := 0, tickAt := 0, hist := [] }
 
 inductive AMove where
   | schedAdd (δ : Rat) (t : Task) (now : Rat)   -- `with _sched_lock: _scheduler.sched(δ, t)` (drift: from `now`)
@@ -306,7 +307,7 @@ def tickTimeout (q : SQ) (value : Rat) : Option Rat :=
 
 def App.nextExpired (a : App) (l : List Entry) (value now : Rat) : App :=
   match l with
-  | [] => { a with pc := .window (tickTimeout a.q value) }
+  | [] => { a with pc := .window (tickTimeout a.q value), tickAt := value }
   | x :: l' => { a with pc := .inAwake l' value x,
                         hist := Ev.awake x value value Tempo.id now x.key :: a.hist }
 
@@ -324,13 +325,16 @@ def App.thr (a : App) (now : Rat) : Option App :=
     else some { a with pc := .parked t (t.map fun x => now + x), hist := Ev.wait t :: a.hist }
   | _ => none
 
+def appWakeOk (r : Reason) (pc : APC) (notified : Bool) (now : Rat) : Bool :=
+  match r, pc with
+  | .notify, .parked _ _ => notified
+  | .timeout, .parked _ (some d) => d ≤ now
+  | .spurious, .parked _ _ => true
+  | _, _ => false
+
 def App.wake (a : App) (r : Reason) (now : Rat) : Option App :=
-  let ok : Bool := match r, a.pc with
-    | .notify, .parked _ _ => a.notified
-    | .timeout, .parked _ (some d) => d ≤ now
-    | .spurious, .parked _ _ => true
-    | _, _ => false
-  if ok then some { a with notified := false, pending := false, pc := .top } else none
+  if appWakeOk r a.pc a.notified now then some { a with notified := false, pending := false, pc := .top }
+  else none
 
 def App.finish (a : App) (r : Result) (now : Rat) : Option App :=
   match a.pc with
